@@ -207,6 +207,20 @@ def load():
     else:
         die("reader: unexpected cases in the unsigned data switch: %s" % ucases)
 
+    # labels after the last insn of a function: error at endfunc (today) or appended
+    m = re.search(r'strcmp\s*\(name,\s*"endfunc"\)\s*==\s*0\)\s*\{(.*?)MIR_finish_func\s*\(ctx\)', rd, re.S)
+    if not m:
+        die("reader: endfunc branch not recognised")
+    eb = norm(m.group(1))
+    if "endfunc should have no labels" in eb and "MIR_append_insn" not in eb:
+        endfunc_labels = False
+    elif ("endfunc should have no labels" not in eb
+          and re.search(r"for \(size_t j = 0; j < VARR_LENGTH \(uint64_t, insn_label_string_nums\); j\+\+\) "
+                        r"MIR_append_insn \(ctx, func, to_lab \(ctx, VARR_GET \(uint64_t, insn_label_string_nums, j\)\)\);", eb)):
+        endfunc_labels = True
+    else:
+        die("reader: unknown treatment of labels before endfunc: %r" % eb[:300])
+
     m = re.search(r"#define\s+OUT_FLAG\s+(.*)", raw)
     if not m:
         die("OUT_FLAG not found")
@@ -214,7 +228,7 @@ def load():
             "out_flag": ev(m.group(1), env), "version": version, "blk_num": blk_num,
             "code_limit": code_limit, "code_limit_name": code_limit_name, "insn_bound": insn_bound,
             "cfg": {"unportable": unport_r, "globalDoubleRead": double_read, "lrefOrphan": lref_orphan,
-                    "dataPtr": data_ptr, "codeLimit": code_limit}}
+                    "dataPtr": data_ptr, "codeLimit": code_limit, "endfuncLabels": endfunc_labels}}
 
 
 def main():
@@ -224,6 +238,7 @@ def main():
     insn_bound = t["insn_bound"]
     unport_r = t["cfg"]["unportable"]
     double_read, lref_orphan, data_ptr = t["cfg"]["globalDoubleRead"], t["cfg"]["lrefOrphan"], t["cfg"]["dataPtr"]
+    endfunc_labels = t["cfg"]["endfuncLabels"]
 
     def lstr(s):
         return '"' + s + '"'
@@ -266,6 +281,7 @@ def main():
     L.append("  globalDoubleRead := %s," % ("true" if double_read else "false"))
     L.append("  lrefOrphan := %s," % ("true" if lref_orphan else "false"))
     L.append("  dataPtr := %s," % ("true" if data_ptr else "false"))
+    L.append("  endfuncLabels := %s," % ("true" if endfunc_labels else "false"))
     L.append("  version := %d }" % version)
     L.append("")
     L.append("end MirVerif.Gen.C11")
@@ -279,8 +295,8 @@ def main():
         with open(OUT + ".tmp", "w") as f:
             f.write(text)
         os.replace(OUT + ".tmp", OUT)
-    print("c11_tables.py: %d tags, %d insn codes, codeLimit=%s(%d), doubleRead=%s lrefOrphan=%s dataPtr=%s"
-          % (len(tags), len(codes), code_limit_name, code_limit, double_read, lref_orphan, data_ptr))
+    print("c11_tables.py: %d tags, %d insn codes, codeLimit=%s(%d), doubleRead=%s lrefOrphan=%s dataPtr=%s endfuncLabels=%s"
+          % (len(tags), len(codes), code_limit_name, code_limit, double_read, lref_orphan, data_ptr, endfunc_labels))
 
 
 if __name__ == "__main__":
